@@ -64,6 +64,7 @@ class World(object):
         self.kinds = kinds
         self.with_d = with_d
         self.clock = 1000
+        self.back = 900
         self.ver = {}
         shutil.rmtree(root, ignore_errors=True)
         os.makedirs(root)
@@ -81,11 +82,11 @@ class World(object):
     def content(self, mod, ver):
         i = self.chain.index(mod)
         if i == len(self.chain) - 1:
-            return LEAF[ver]
+            return ('# moved down by one line\n' if ver & 2 else '') + LEAF[ver & 1]
         text = EDGE[self.kinds[i]].format(down=self.chain[i + 1])
         if i == 0 and self.with_d:
             text += 'import d\n'
-        if ver:
+        if ver & 1:
             text += 'extra_%s = 1\n' % mod
         return text
 
@@ -101,6 +102,20 @@ class World(object):
         if kind == 'rewrite':
             m = ev[1]
             self.ver[m] ^= 1
+            self.write(m, self.content(m, self.ver[m]))
+        elif kind == 'rewrite_back':
+            # new content with an OLDER modification time than the cached one (restore from a backup, cp -p, VCS checkout)
+            m = ev[1]
+            self.ver[m] ^= 1
+            fn = os.path.join(self.root, m + '.py')
+            with open(fn, 'w') as f:
+                f.write(self.content(m, self.ver[m]))
+            self.back -= 10
+            os.utime(fn, (self.back, self.back))
+        elif kind == 'shift':
+            # same code, one comment line more or less on top: only positions change
+            m = ev[1]
+            self.ver[m] ^= 2
             self.write(m, self.content(m, self.ver[m]))
         elif kind == 'touch':
             m = ev[1]
@@ -151,6 +166,8 @@ def events(chain, with_d, nreq):
         evs.append(('rewrite', m))
     for m in chain:
         evs.append(('touch', m))
+    evs.append(('rewrite_back', chain[-1]))
+    evs.append(('shift', chain[-1]))
     if with_d:
         evs.append(('create',))
     evs += [('req', j) for j in range(nreq)]
@@ -163,13 +180,13 @@ def classify(world, hist, ev):
         src = world.reqs[ev[1]][1]
         if '.d.' in src or 'import d' in src:
             return 'created-module'
-    edits = [e for e in hist if e[0] in ('rewrite', 'create')]
+    edits = [e for e in hist if e[0] in ('rewrite', 'create', 'rewrite_back', 'shift')]
     last = edits[-1] if edits else ('none',)
     if last[0] == 'create':
         what = 'created-module'
-    elif last[0] == 'rewrite':
+    elif last[0] in ('rewrite', 'rewrite_back', 'shift'):
         depth = world.chain.index(last[1])
-        what = 'edit-at-depth-%d' % depth
+        what = '%s-at-depth-%d' % ({'rewrite': 'edit', 'rewrite_back': 'edit-with-older-mtime', 'shift': 'position-shift'}[last[0]], depth)
     else:
         what = 'no-edit'
     return what
